@@ -402,10 +402,16 @@ class Report:
 
 
 def load_known_findings(pid):
-    p = os.path.join(VERIF, "known_findings.json")
-    if not os.path.exists(p):
-        return []
-    return [f for f in json.load(open(p)) if f.get("property") == pid]
+    """known_findings.json plus fragments known_findings.d/*.json (read-only at run time)."""
+    out = []
+    paths = [os.path.join(VERIF, "known_findings.json")]
+    d = os.path.join(VERIF, "known_findings.d")
+    if os.path.isdir(d):
+        paths += sorted(os.path.join(d, f) for f in os.listdir(d) if f.endswith(".json"))
+    for p in paths:
+        if os.path.exists(p):
+            out += [f for f in json.load(open(p)) if f.get("property") == pid]
+    return out
 
 
 def source_hashes(relpaths):
